@@ -4,8 +4,11 @@ package datastore
 
 import (
 	"github.com/janelia-flyem/dvid/dvid"
+	"github.com/janelia-flyem/dvid/storage"
 	"github.com/janelia-flyem/dvid/zzverif/vh"
 )
+
+type storageStore = storage.OrderedKeyValueDB
 
 // vData: minimal dvid.Data (only the instance id matters for key construction).
 type vData struct {
@@ -125,4 +128,16 @@ func (d *vDAG) vInstall(locked []bool) (*repoManager, *repoT) {
 	m.repoToUUID[1] = d.uuids[1]
 	manager = m
 	return m, r
+}
+
+// VerifInstallRootRepo installs a manager holding one repo with a single, uncommitted root version over the given
+// store and returns the root's UUID and version id (helper for harnesses living in data type packages).
+func VerifInstallRootRepo(store interface{}, v dvid.VersionID) (dvid.UUID, dvid.VersionID) {
+	d := &vDAG{n: 1, vids: []dvid.VersionID{0, v}, uuids: []dvid.UUID{"", "00000000000000000000000000000001"}, parents: make([][]int, 2)}
+	m, r := d.vInstall(nil)
+	if s, ok := store.(storageStore); ok {
+		m.store = s
+	}
+	m.branchToUUID[string(r.uuid)+"master"] = r.uuid
+	return r.uuid, v
 }
